@@ -8,7 +8,7 @@ use std::fmt::Debug;
 use std::hash::{Hash, Hasher};
 use std::panic::{catch_unwind, AssertUnwindSafe};
 use std::path::PathBuf;
-use std::sync::atomic::{AtomicBool, AtomicU64, Ordering};
+use std::sync::atomic::{AtomicU64, Ordering};
 use std::sync::{Arc, Mutex};
 use std::time::Instant;
 
@@ -599,53 +599,81 @@ impl Ctx {
         let batches = (threads * 4).min(n.max(1));
         let per = n / batches;
         let rem = n % batches;
-        let results: Vec<Option<(C, Fail)>> = (0..batches)
+        let config = |b: u64, shrink: bool| {
+            let mut cfg = Config::default();
+            cfg.cases = (per + if b < rem { 1 } else { 0 }) as u32;
+            cfg.failure_persistence = None;
+            cfg.rng_algorithm = RngAlgorithm::ChaCha;
+            cfg.rng_seed = RngSeed::Fixed(derive_seed(self.seed, self.prop, name, b));
+            cfg.max_shrink_iters = if shrink { 1500 } else { 0 };
+            cfg.max_shrink_time = 0;
+            cfg.verbose = 0;
+            cfg.source_file = None;
+            cfg
+        };
+        // phase 1: search, no shrinking; every batch is a pure function of (seed, sub-check, batch index)
+        let found: Vec<Option<(u64, C, Fail)>> = (0..batches)
             .into_par_iter()
             .map(|b| {
-                let cases = per + if b < rem { 1 } else { 0 };
-                if cases == 0 {
+                let cfg = config(b, false);
+                if cfg.cases == 0 {
                     return None;
                 }
-                let mut cfg = Config::default();
-                cfg.cases = cases as u32;
-                cfg.failure_persistence = None;
-                cfg.rng_algorithm = RngAlgorithm::ChaCha;
-                cfg.rng_seed = RngSeed::Fixed(derive_seed(self.seed, self.prop, name, b));
-                cfg.max_shrink_iters = 2000;
-                cfg.max_shrink_time = 0;
-                cfg.verbose = 0;
-                cfg.source_file = None;
                 let mut runner = TestRunner::new(cfg);
-                let failed = AtomicBool::new(false);
+                let first: Mutex<Option<(C, Fail)>> = Mutex::new(None);
                 let res = runner.run(&strat(), |case| {
-                    let counting = !failed.load(Ordering::Relaxed);
-                    match self.eval(&sub, &case, &f, counting) {
+                    if first.lock().unwrap().is_some() {
+                        return Ok(()); // after the first failure nothing is counted or evaluated
+                    }
+                    match self.eval(&sub, &case, &f, true) {
                         None => Ok(()),
                         Some(fl) => {
-                            failed.store(true, Ordering::Relaxed);
+                            *first.lock().unwrap() = Some((case.clone(), fl.clone()));
                             Err(TestCaseError::fail(fl.key))
                         }
                     }
                 });
+                if let Err(TestError::Abort(r)) = &res {
+                    println!("NOTE sub={} batch={} aborted: {}", name, b, r);
+                }
+                first.into_inner().unwrap().map(|(c, fl)| (b, c, fl))
+            })
+            .collect();
+        // phase 2: for every distinct failure signature, shrink in the lowest-numbered batch that showed it
+        let mut by_key: BTreeMap<String, (u64, C, Fail)> = BTreeMap::new();
+        for (b, c, fl) in found.into_iter().flatten() {
+            let e = by_key.entry(fl.key.clone());
+            match e {
+                std::collections::btree_map::Entry::Vacant(v) => {
+                    v.insert((b, c, fl));
+                }
+                std::collections::btree_map::Entry::Occupied(mut o) => {
+                    sub.extra_violations.fetch_add(1, Ordering::Relaxed);
+                    if b < o.get().0 {
+                        o.insert((b, c, fl));
+                    }
+                }
+            }
+        }
+        let shrunk: Vec<(C, Fail)> = by_key
+            .into_par_iter()
+            .map(|(key, (b, orig_case, orig_fail))| {
+                let mut runner = TestRunner::new(config(b, true));
+                let res = runner.run(&strat(), |case| match self.eval(&sub, &case, &f, false) {
+                    Some(fl) if fl.key == key => Err(TestCaseError::fail(fl.key)),
+                    _ => Ok(()),
+                });
                 match res {
-                    Ok(()) => None,
-                    Err(TestError::Fail(_, shrunk)) => {
-                        // re-evaluate the shrunk case to get its own detail
-                        let fl = self.eval(&sub, &shrunk, &f, false).unwrap_or(Fail {
-                            key: "shrunk-case-passes".into(),
-                            detail: "the shrunk case no longer fails (non-deterministic check?)".into(),
-                        });
-                        Some((shrunk, fl))
-                    }
-                    Err(TestError::Abort(r)) => {
-                        println!("NOTE sub={} batch={} aborted: {}", name, b, r);
-                        None
-                    }
+                    Err(TestError::Fail(_, small)) => match self.eval(&sub, &small, &f, false) {
+                        Some(fl) if fl.key == key => (small, fl),
+                        _ => (orig_case, Fail { key: orig_fail.key, detail: format!("{} [not reproducible from the case alone: the check involves the library's own RNG]", orig_fail.detail) }),
+                    },
+                    _ => (orig_case, Fail { key: orig_fail.key, detail: format!("{} [did not reproduce in the shrinking pass: the check involves the library's own RNG]", orig_fail.detail) }),
                 }
             })
             .collect();
-        for r in results.into_iter().flatten() {
-            self.record_violation(&sub, &r.0, r.1);
+        for (c, fl) in shrunk {
+            self.record_violation(&sub, &c, fl);
         }
         self.progress(&sub, t0);
     }
